@@ -23,6 +23,7 @@ func checkC08(r *Report, p *Program) {
 	r07_6b(r, p)
 	// a revision's name is unique per parent: two parents never collide on Create (shared with C09)
 	r09_4(r, p)
+	r09_10(r, p)
 }
 
 // ---- key domains ----
